@@ -20,14 +20,17 @@ static inline void myth_loop_barrier() {
 //Guarantees successive reads to be executed after this
 static inline void myth_rbarrier() {
   asm volatile("lfence" ::: "memory");
+  MYTH_VERIF_POINT(MYTH_VP_FENCE_R, 0, 0, 1);
 }
 //Guarantees former writes to be executed before this
 static inline void myth_wbarrier() {
   asm volatile("sfence" ::: "memory");
+  MYTH_VERIF_POINT(MYTH_VP_FENCE_W, 0, 0, 1);
 }
 //rbarrier+wbarrier
 static inline void myth_rwbarrier() {
   asm volatile("mfence" ::: "memory");
+  MYTH_VERIF_POINT(MYTH_VP_FENCE_RW, 0, 0, 1);
 }
 
 #elif MYTH_BARRIER == MYTH_BARRIER_CILK
@@ -36,10 +39,12 @@ static inline void myth_rwbarrier() {
 static inline void myth_rbarrier() {
   int x=0, y=0;
   asm volatile("xchgl %0,%1":"=r"(x):"m"(y),"0"(x):"memory");
+  MYTH_VERIF_POINT(MYTH_VP_FENCE_R, 0, 0, 1);
 }
 //Guarantees former writes to be executed before this
 static inline void myth_wbarrier() {
   asm volatile("":::"memory");
+  MYTH_VERIF_POINT(MYTH_VP_FENCE_W, 0, 0, 0);
 }
 //rbarrier+wbarrier
 static inline void myth_rwbarrier() {
@@ -50,10 +55,12 @@ static inline void myth_rwbarrier() {
 //R->R orderings are guaranteed by x86[_64] architecture
 static inline void myth_rbarrier() {
   asm volatile("":::"memory");
+  MYTH_VERIF_POINT(MYTH_VP_FENCE_R, 0, 0, 0);
 }
 //W->W orderings are guaranteed by x86[_64] architecture
 static inline void myth_wbarrier() {
   asm volatile("":::"memory");
+  MYTH_VERIF_POINT(MYTH_VP_FENCE_W, 0, 0, 0);
 }
 //R->W orderings are NOT guaranteed. Need to serialize by atomic or fence insns
 //the initialization y=0 is not necessary but desirable to suppress 
@@ -61,18 +68,22 @@ static inline void myth_wbarrier() {
 static inline void myth_rwbarrier() {
   int x,y;
   asm volatile("xchgl %0,%1":"=r"(x),"=m"(y)::"memory");
+  MYTH_VERIF_POINT(MYTH_VP_FENCE_RW, 0, 0, 1);
 }
 //#define myth_rwbarrier() asm volatile("mfence":::"memory")
 #elif MYTH_BARRIER == MYTH_BARRIER_INTRINSIC
 
 static inline void myth_rbarrier() {
   __sync_synchronize();
+  MYTH_VERIF_POINT(MYTH_VP_FENCE_R, 0, 0, 1);
 }
 static inline void myth_wbarrier() {
   __sync_synchronize();
+  MYTH_VERIF_POINT(MYTH_VP_FENCE_W, 0, 0, 1);
 }
 static inline void myth_rwbarrier() {
   __sync_synchronize();
+  MYTH_VERIF_POINT(MYTH_VP_FENCE_RW, 0, 0, 1);
 }
 
 #else
